@@ -264,6 +264,37 @@ kernel('G6_int', 'bisturi/field.py',
 })
 
 
+_DATA_ENV = {'offset': 'offset', 'byte_count': 'bc', 'len(chunk)': 'len', 'self._search_buffer_length': 'sbl', 'count': 'count',
+             'len(until_marker)': 'mlen', 'next_offset': 'next_offset', 'extra_count': 'extra', 'len(raw)': 'rawlen',
+             'match.end()': 'mend'}
+_dh = {}
+for k in '123':
+    _dh['d_next' + k] = H('d_next' + k, [('offset', Z), ('bc', Z)], _DATA_ENV, Z)
+    _dh['d_short' + k] = H('d_short' + k, [('len', Z), ('bc', Z)], _DATA_ENV, 'bool')
+    _dh['d_msg' + k] = H(None, [], {}, None)
+for k in '12':
+    _dh['d_win_end' + k] = H('d_win_end' + k, [('offset', Z), ('sbl', Z)], _DATA_ENV, Z)
+_dh.update({
+    'd_found': H('d_found', [('count', Z)], _DATA_ENV, 'bool'),
+    'd_incl_add': H('d_incl_add', [('mlen', Z)], _DATA_ENV, Z),
+    'd_extra': H('d_extra', [('mlen', Z)], _DATA_ENV, Z),
+    'd_next4': H('d_next4', [('offset', Z), ('count', Z)], _DATA_ENV, Z),
+    'd_ret4': H('d_ret4', [('next_offset', Z), ('extra', Z)], _DATA_ENV, Z),
+    'd_eos_count': H('d_eos_count', [('rawlen', Z), ('offset', Z)], _DATA_ENV, Z),
+    'd_rx_extra': H('d_rx_extra', [('mend', Z), ('count', Z)], _DATA_ENV, Z),
+    'd_next5': H('d_next5', [('offset', Z), ('count', Z)], _DATA_ENV, Z),
+    'd_ret5': H('d_ret5', [('next_offset', Z), ('extra', Z)], _DATA_ENV, Z),
+})
+kernel('G8_data', 'bisturi/field.py',
+       [('Data', 'pack'), ('Data', '_unpack_fixed_size'), ('Data', '_unpack_variable_size_field'),
+        ('Data', '_unpack_variable_size_callable'), ('Data', '_unpack_with_string_marker'), ('Data', '_unpack_with_regexp_marker')],
+       'DataGen', _dh)
+kernel('G7_auto', 'bisturi/descriptor.py',
+       [('Auto', '__get__'), ('Auto', '__set__'), ('Auto', '__delete__'), ('Auto', 'sync_before_pack'),
+        ('AutoLength', '__init__'), ('AutoLength', 'calculate_length')], 'AutoGen', {},
+       extra='Definition auto_template_matched : bool := true.')
+
+
 def translate_kernel(kid):
     k = KERNELS[kid]
     src_path = os.path.join(REPO, k['pyfile'])
